@@ -41,7 +41,7 @@ ASSUMPTIONS = [
     "from-end delays are strictly smaller than every admissible duration",
 ]
 SHARD_TIMEOUT = {"quick": 600, "thorough": 3600}
-BOUNDS = {"quick": dict(n=480, plans=4), "thorough": dict(n=6000, plans=8)}
+BOUNDS = {"quick": dict(n=480, plans=4), "thorough": dict(n=24000, plans=8)}
 
 
 def plan(tier, seed):
